@@ -27,6 +27,64 @@ pub fn fmt_state(d: &Dump, slots: &[(usize, String)]) -> String {
     format!("m={} i={} g={} {}", d.bucket_mask, d.items, d.growth_left, body)
 }
 
+/// Direct structural oracle on the real table (independent of the model): `items` = number of
+/// FULL bytes, `growth_left + full + deleted = capacity`, mirror bytes, at least one EMPTY, no
+/// DELETED in a table smaller than a group.
+pub fn inv_oracle(d: &Dump) -> Option<String> {
+    let w = hashbrown::verif::GROUP_WIDTH;
+    if d.is_singleton {
+        if d.items != 0 || d.growth_left != 0 || d.ctrl.iter().any(|&b| b != 0xFF) {
+            return Some("static singleton modified".into());
+        }
+        return None;
+    }
+    let n = d.bucket_mask + 1;
+    if !n.is_power_of_two() || d.ctrl.len() != n + w {
+        return Some(format!("geometry n={} ctrl={}", n, d.ctrl.len()));
+    }
+    let full = d.ctrl[..n].iter().filter(|&&b| b & 0x80 == 0).count();
+    let del = d.ctrl[..n].iter().filter(|&&b| b == 0x80).count();
+    let emp = d.ctrl[..n].iter().filter(|&&b| b == 0xFF).count();
+    if full + del + emp != n {
+        return Some("invalid control byte".into());
+    }
+    if d.items != full {
+        return Some(format!("items={} but {} full control bytes", d.items, full));
+    }
+    let cap = hashbrown::verif::bucket_mask_to_capacity(d.bucket_mask);
+    if d.growth_left + full + del != cap {
+        return Some(format!(
+            "growth_left={} + full={} + deleted={} != capacity {}",
+            d.growth_left, full, del, cap
+        ));
+    }
+    if emp == 0 {
+        return Some("no EMPTY bucket left".into());
+    }
+    if n >= w {
+        for j in 0..w {
+            if d.ctrl[n + j] != d.ctrl[j] {
+                return Some(format!("mirror byte {} differs", j));
+            }
+        }
+    } else {
+        if del != 0 {
+            return Some("DELETED byte in a table smaller than a group".into());
+        }
+        for j in n..w {
+            if d.ctrl[j] != 0xFF {
+                return Some(format!("padding byte {} not EMPTY", j));
+            }
+        }
+        for j in 0..n {
+            if d.ctrl[w + j] != d.ctrl[j] {
+                return Some(format!("mirror byte {} differs", j));
+            }
+        }
+    }
+    None
+}
+
 pub fn fmt_tre(r: Result<(), TryReserveError>) -> String {
     match r {
         Ok(()) => "ok".into(),
@@ -78,9 +136,42 @@ pub trait Runner {
 
 type M<K, V> = HashMap<K, V, IdBuild, TapeAlloc>;
 
+/// Reference association list: key ↦ (kid, vid, v).
+type RefMap = std::collections::BTreeMap<u64, (u64, u64, u64)>;
+
 pub struct MapRunner<K: KeyT, V: ValT> {
     a: Option<M<K, V>>,
     b: Option<M<K, V>>,
+    ra: RefMap,
+    rb: RefMap,
+    /// predicate decisions of the last retain/extract_if: (key, answer, new v)
+    preds: std::rc::Rc<std::cell::RefCell<Vec<(u64, bool, u64)>>>,
+}
+
+fn contents<K: KeyT, V: ValT>(m: &M<K, V>) -> RefMap {
+    let d = m.verif_dump();
+    let mut out = RefMap::new();
+    if !d.is_singleton {
+        for i in 0..=d.bucket_mask {
+            if let Some((k, v)) = m.verif_bucket(i) {
+                out.insert(k.k(), (k.id(), v.id(), v.v()));
+            }
+        }
+    }
+    out
+}
+
+fn lawful() -> bool {
+    tape::with(|t| {
+        let p = &t.p;
+        p.hash_mix.is_none()
+            && p.eq_mix.is_none()
+            && p.hpanic.is_none()
+            && p.epanic.is_none()
+            && p.cpanic.is_none()
+            && p.ppanic.is_none()
+            && p.dpanic.is_none()
+    })
 }
 
 fn new_map<K: KeyT, V: ValT>() -> M<K, V> {
@@ -187,9 +278,54 @@ where
     )
 }
 
+/// Same for iterators that cannot be cloned (`iter_mut`, `values_mut`): the "clone" column
+/// repeats the folded one.
+fn observe_iter_nc<I, T>(it: I, p: usize, idx: impl Fn(&T) -> usize) -> String
+where
+    I: Iterator<Item = T> + ExactSizeIterator,
+{
+    let mut it = it;
+    let mut pre = Vec::new();
+    let mut hints = Vec::new();
+    let mut flags = String::new();
+    let check = |it: &I, flags: &mut String| {
+        let (lo, hi) = it.size_hint();
+        if hi != Some(lo) || it.len() != lo {
+            flags.push_str(" SIZE-HINT-INEXACT");
+        }
+        lo
+    };
+    for _ in 0..p {
+        hints.push(check(&it, &mut flags));
+        match it.next() {
+            None => break,
+            Some(x) => pre.push(idx(&x)),
+        }
+    }
+    hints.push(check(&it, &mut flags));
+    let folded = it.fold(Vec::new(), |mut acc, x| {
+        acc.push(idx(&x));
+        acc
+    });
+    format!(
+        "pre={} fold={} rest={} sh={}{}",
+        nats(&pre),
+        nats(&folded),
+        nats(&folded),
+        nats(&hints),
+        flags
+    )
+}
+
 impl<K: KeyT, V: ValT> MapRunner<K, V> {
     pub fn new() -> Self {
-        MapRunner { a: Some(new_map()), b: Some(new_map()) }
+        MapRunner {
+            a: Some(new_map()),
+            b: Some(new_map()),
+            ra: RefMap::new(),
+            rb: RefMap::new(),
+            preds: Default::default(),
+        }
     }
     fn sel(&mut self, tgt: &str) -> (&mut M<K, V>, &mut M<K, V>) {
         let (a, b) = (self.a.as_mut().unwrap(), self.b.as_mut().unwrap());
@@ -207,14 +343,187 @@ impl<K: KeyT, V: ValT> MapRunner<K, V> {
         }
     }
 
+
+    /// Direct oracle: what a reference association list says this op must return and leave behind.
+    /// Only for lawful environments. Returns a complaint, or None.
+    fn ref_step(&mut self, tgt: &str, name: &str, a: &[&str], ret: &str) -> Option<String> {
+        let n = |i: usize| -> u64 { a[i].parse().unwrap() };
+        let fe = |k: u64, e: &(u64, u64, u64)| format!("{}.{}.{}.{}", k, e.0, e.1, e.2);
+        let preds = self.preds.borrow().clone();
+        let actual = contents(self.get(tgt));
+        let other_actual = contents(self.get(if tgt == "a" { "b" } else { "a" }));
+        let (r, o) = if tgt == "a" { (&mut self.ra, &mut self.rb) } else { (&mut self.rb, &mut self.ra) };
+        let mut expect: Option<String> = None;
+        let mut resync_ids = false;
+        match (name, a.len()) {
+            ("insert", 4) => {
+                let (k, kid, vid, v) = (n(0), n(1), n(2), n(3));
+                match r.get(&k).copied() {
+                    Some(old) => {
+                        expect = Some(format!("{}.{}", old.1, old.2));
+                        r.insert(k, (old.0, vid, v));
+                    }
+                    None => {
+                        expect = Some("-".into());
+                        r.insert(k, (kid, vid, v));
+                    }
+                }
+            }
+            ("get", 1) => expect = Some(r.get(&n(0)).map_or("-".into(), |e| fe(n(0), e))),
+            ("contains", 1) => expect = Some(r.contains_key(&n(0)).to_string()),
+            ("getmut", 2) => {
+                if let Some(e) = r.get_mut(&n(0)) {
+                    e.2 = n(1);
+                }
+                expect = Some(r.get(&n(0)).map_or("-".into(), |e| fe(n(0), e)));
+            }
+            ("remove", 1) => {
+                expect = Some(r.remove(&n(0)).map_or("-".into(), |e| format!("{}.{}", e.1, e.2)))
+            }
+            ("remove_entry", 1) => {
+                expect = Some(r.remove(&n(0)).map_or("-".into(), |e| fe(n(0), &e)))
+            }
+            ("clear", 0) => {
+                r.clear();
+                expect = Some("()".into());
+            }
+            ("reserve", 1) | ("shrink_to", 1) | ("shrink_to_fit", 0) | ("nop", 0) => {
+                expect = Some("()".into())
+            }
+            ("try_reserve", 1) => {
+                if n(0) < (1 << 40) {
+                    expect = Some("ok".into())
+                }
+            }
+            ("retain", 0) => {
+                let mut seen = std::collections::BTreeSet::new();
+                for (k, ans, nv) in &preds {
+                    if !seen.insert(*k) {
+                        return Some(format!("retain visited key {} twice", k));
+                    }
+                    match r.get_mut(k) {
+                        None => return Some(format!("retain visited absent key {}", k)),
+                        Some(e) => e.2 = *nv,
+                    }
+                    if !*ans {
+                        r.remove(k);
+                    }
+                }
+                if seen.len() != preds.len() || actual.len() != r.len() {
+                    return Some("retain: predicate calls do not cover the map once".into());
+                }
+                expect = Some("()".into());
+            }
+            ("extract_if", 1) => {
+                let mut yielded = Vec::new();
+                let mut seen = std::collections::BTreeSet::new();
+                for (k, ans, nv) in &preds {
+                    if !seen.insert(*k) {
+                        return Some(format!("extract_if visited key {} twice", k));
+                    }
+                    match r.get_mut(k) {
+                        None => return Some(format!("extract_if visited absent key {}", k)),
+                        Some(e) => e.2 = *nv,
+                    }
+                    if *ans {
+                        let e = r.remove(k).unwrap();
+                        yielded.push(fe(*k, &e));
+                    }
+                }
+                expect = Some(yielded.join(","));
+            }
+            ("drain", 2) | ("into_iter", 1) => {
+                let got: Vec<&str> = if ret.is_empty() { vec![] } else { ret.split(',').collect() };
+                let want = std::cmp::min(n(0) as usize, r.len());
+                if got.len() != want {
+                    return Some(format!("{} yielded {} elements, expected {}", name, got.len(), want));
+                }
+                let mut seen = std::collections::BTreeSet::new();
+                for g in &got {
+                    let k: u64 = g.split('.').next().unwrap().parse().unwrap();
+                    match r.get(&k) {
+                        Some(e) if fe(k, e) == *g && seen.insert(k) => {}
+                        _ => return Some(format!("{} yielded {} which is not a stored element (or twice)", name, g)),
+                    }
+                }
+                r.clear();
+            }
+            ("with_capacity", 1) => {
+                r.clear();
+                expect = Some("()".into());
+            }
+            ("clone_to_other", 0) => {
+                *o = r.clone();
+                // clones carry fresh identities
+                for (k, e) in &other_actual {
+                    if r.contains_key(k) && (e.0 < 1_000_000 || e.1 < 1_000_000) {
+                        return Some(format!("clone shares identity of key {}", k));
+                    }
+                }
+                let a: Vec<_> = other_actual.iter().map(|(k, e)| (*k, e.2)).collect();
+                let b: Vec<_> = o.iter().map(|(k, e)| (*k, e.2)).collect();
+                if a != b {
+                    return Some("clone differs from source".into());
+                }
+                *o = other_actual.clone();
+                expect = Some("()".into());
+            }
+            ("clone_from", 0) => {
+                let a: Vec<_> = actual.iter().map(|(k, e)| (*k, e.2)).collect();
+                let b: Vec<_> = o.iter().map(|(k, e)| (*k, e.2)).collect();
+                if a != b {
+                    return Some("clone_from result differs from source".into());
+                }
+                for (k, e) in &actual {
+                    let _ = k;
+                    if e.0 < 1_000_000 || e.1 < 1_000_000 {
+                        return Some("clone_from shares identity with source".into());
+                    }
+                }
+                resync_ids = true;
+                expect = Some("()".into());
+            }
+            ("eq", 0) => {
+                let a: Vec<_> = r.iter().map(|(k, e)| (*k, e.2)).collect();
+                let b: Vec<_> = o.iter().map(|(k, e)| (*k, e.2)).collect();
+                expect = Some((a == b).to_string());
+            }
+            _ => {}
+        }
+        if resync_ids {
+            *r = actual.clone();
+        }
+        if let Some(e) = expect {
+            if e != ret {
+                return Some(format!("{} returned {} but the reference map says {}", name, ret, e));
+            }
+        }
+        if *r != actual {
+            let missing: Vec<_> = r.keys().filter(|k| !actual.contains_key(k)).collect();
+            let extra: Vec<_> = actual.keys().filter(|k| !r.contains_key(k)).collect();
+            return Some(format!(
+                "contents differ from the reference map after {} (missing keys {:?}, extra keys {:?}, or key/value identity changed)",
+                name, missing, extra
+            ));
+        }
+        None
+    }
+
     fn run(&mut self, tgt: &str, name: &str, a: &[&str]) -> String {
         let n = |i: usize| -> u64 { a[i].parse().unwrap() };
-        let (m, other) = self.sel(tgt);
-        let pred = |_k: &K, v: &mut V| {
+        let rec = self.preds.clone();
+        rec.borrow_mut().clear();
+        let (m, other) = if tgt == "a" {
+            (self.a.as_mut().unwrap(), self.b.as_mut().unwrap())
+        } else {
+            (self.b.as_mut().unwrap(), self.a.as_mut().unwrap())
+        };
+        let pred = move |k: &K, v: &mut V| {
             let (ans, mutate) = tape::pred_of();
             if mutate {
                 v.set_v(v.v() + 7);
             }
+            rec.borrow_mut().push((k.k(), ans, v.v()));
             ans
         };
         match (name, a.len()) {
@@ -313,10 +622,13 @@ impl<K: KeyT, V: ValT> MapRunner<K, V> {
                 let (ka, va) = addr_index(m);
                 let p = n(0) as usize;
                 let variant = if a.len() == 2 { a[1] } else { "iter" };
+                let bad = usize::MAX;
                 match variant {
-                    "keys" => observe_iter(m.keys(), p, |k| ka[&(*k as *const K as usize)]),
-                    "values" => observe_iter(m.values(), p, |v| va[&(*v as *const V as usize)]),
-                    _ => observe_iter(m.iter(), p, |(k, _)| ka[&(*k as *const K as usize)]),
+                    "keys" => observe_iter(m.keys(), p, |k| *ka.get(&(*k as *const K as usize)).unwrap_or(&bad)),
+                    "values" => observe_iter(m.values(), p, |v| *va.get(&(*v as *const V as usize)).unwrap_or(&bad)),
+                    "values_mut" => observe_iter_nc(m.values_mut(), p, |v| *va.get(&(&**v as *const V as usize)).unwrap_or(&bad)),
+                    "iter_mut" => observe_iter_nc(m.iter_mut(), p, |(k, _)| *ka.get(&(*k as *const K as usize)).unwrap_or(&bad)),
+                    _ => observe_iter(m.iter(), p, |(k, _)| *ka.get(&(*k as *const K as usize)).unwrap_or(&bad)),
                 }
             }
             ("with_capacity", 1) => {
@@ -355,6 +667,25 @@ impl<K: KeyT, V: ValT> Runner for MapRunner<K, V> {
             Err(p) => panic_class(p),
         };
         quiet();
+        let mut ret = ret;
+        // direct oracles on the implementation, independent of the model
+        if let Some(why) = inv_oracle(&self.get(tgt).verif_dump()) {
+            ret.push_str(&format!(" ORACLE-INV({})", why.replace(' ', "_")));
+        }
+        if let Some(why) = inv_oracle(&self.get(if tgt == "a" { "b" } else { "a" }).verif_dump()) {
+            ret.push_str(&format!(" ORACLE-INV(other:{})", why.replace(' ', "_")));
+        }
+        if lawful() && !ret.starts_with("panic") {
+            if let Some(why) = self.ref_step(tgt, name, args, &ret.clone()) {
+                ret.push_str(&format!(" ORACLE-REF({})", why.replace(' ', "_")));
+                // do not cascade: continue from what the implementation holds
+                self.ra = contents(self.get("a"));
+                self.rb = contents(self.get("b"));
+            }
+        } else {
+            self.ra = contents(self.get("a"));
+            self.rb = contents(self.get("b"));
+        }
         // `clone_to_other` modifies the other collection; the state printed is always the target's
         let st = state_of(self.get(tgt));
         format!("{} ; {} ; {} ; {}", ret, st, tape::take_events(), tape::counters())
